@@ -340,7 +340,7 @@ func impl(in hv.Val) hv.Val {
 }
 
 // ---------------------------------------------------------------- generators
-var hosts = []string{"10.0.0.1", "10.0.0.10", "10.0.0.2", "10.0.0.100", "10.0.1.1", "a", "ab", "a.b", "b", "B", "host-1", "host-10", "host-2", "192.168.1.1", "9.9.9.9"}
+var hosts = []string{"10.0.0.1", "10.0.0.10", "10.0.0.2", "10.0.0.100", "10.0.1.1", "a", "ab", "a.b", "b", "B", "host-1", "host-10", "host-2", "192.168.1.1", "9.9.9.9", "::1", "fd00::2", "fd00::10"}
 
 func genBackends(r *hv.Rng, n int) []bk {
 	seen := map[string]bool{}
@@ -570,5 +570,5 @@ func gen(r *hv.Rng, i int, tier string) (string, hv.Val) {
 }
 
 func main() {
-	hv.Main(&hv.Spec{Prop: "C02", Gen: gen, Impl: impl, NQuick: 6000, NThorough: 250000})
+	hv.Main(&hv.Spec{Prop: "C02", Gen: gen, Impl: impl, NQuick: 4500, NThorough: 250000})
 }
